@@ -219,6 +219,14 @@ class CellBasis(AbstractBasis):
         rows = np.tile(np.arange(comp * x.shape[1],
                                  dtype=np.int32), self.Nbfun)
         # col indices
+        if self.tind is not None:
+            # the columns of element_dofs correspond to the elements in tind
+            columns = np.zeros(self.mesh.nelements, dtype=np.int64) - 1
+            columns[self.tind] = np.arange(len(self.tind))
+            cells = columns[cells]
+            if (cells < 0).any():
+                raise ValueError("Point is outside of the elements "
+                                 "of the basis.")
         cols = self.element_dofs[:, np.tile(cells, comp)].flatten()
         # shape
         sh = (comp * x.shape[1], self.N)
